@@ -530,6 +530,22 @@ def vtype(ctx):
             inc = unwrap_all(e_[3])
             same_region = is_call(inc, 'Region::size') and strip(inc[2][0]) == strip(lb['elem'])
             oks = b_ in body_ and not cycle_without(bt, body_, h_, {b_}) and same_region and not bt.dominates(h_, zero[0])
+    if not oks and sz[0] == 'var' and is_call(isr['alignment'], 'pointer_size'):
+        # a separate accumulation loop over the finished region list: `let mut size = 0; for r in &regions { size += r.size(..).unwrap() }`
+        defs_ = bt.defs().get(sz[1], [])
+        exprs_ = [(d_[0], bt.expr_of_def(d_)) for d_ in defs_]
+        zero = [b_ for b_, e_ in exprs_ if is_int(e_, 0)]
+        adds = [(b_, e_) for b_, e_ in exprs_ if e_[0] == 'bin' and e_[1] == 'Add' and strip(e_[2]) == sz]
+        if len(defs_) == 2 and len(zero) == 1 and len(adds) == 1:
+            b_, e_ = adds[0]
+            L_ = innermost_loop(bt, b_)
+            if L_:
+                sty_, src_ = loop_source(bt, L_)
+                inc = unwrap_all(e_[3])
+                over = src_ is not None and any(strip(x_) in (regs, regs_var) for x_ in walk(expand(bt, src_))) and not any(
+                    re.search(r'Iterator::(rev|skip|take|filter|step_by|map_while|scan|take_while|skip_while|fuse|cycle)$', c_[3]) for c_ in calls_in(expand(bt, src_)))
+                el_ok = is_call(inc, 'Region::size') and any(is_call(y, 'Iterator::next') for y in walk(inc[2][0]))
+                oks = bool(over and el_ok and not cycle_without(bt, L_[1], L_[0], {b_}) and not bt.dominates(L_[0], zero[0]))
     ctx.ob(['C02', 'C04'], 'R-SLP', 'VBT|size-and-alignment', bool(oks), 'vftable struct: alignment = pointer size, size = sum of the sizes of exactly those regions', where)
     flags = td and all(td[k] == ('int', 0, 'bool') for k in ('copyable', 'cloneable', 'defaultable', 'packed')) and td['vftable'][1].endswith('Option::None') and td['singleton'][1].endswith('Option::None')
     fs = fmt_str(idf['path'])
